@@ -206,6 +206,12 @@ def build_universe(fa, extra_targets=()):
                 for params in PARAM_SETS:
                     out.append(dict(target=t, func=func, sig=[s if isinstance(s, str) else s.__name__ for s in sig], sigidx=0,
                                     params=dict(params)))
+        for func in ("asinh", "hypot", "square", "log1p"):
+            if func in ta and ta[func]:
+                sig = [x if isinstance(x, str) else x.__name__ for x in ta[func][0]]
+                out.append(dict(target=t, func=func, sig=sig, sigidx=0, params={"__rename__": True}))
+                if t == "numpy":
+                    out.append(dict(target=t, func=func, sig=sig, sigidx=0, params={"__force_cast__": False}))
         for func in PATHS_FUNCS:
             sigs = ta.get(func) or ([[ty] * STRESS[func][1] for ty in STRESS_SIGS[t][STRESS[func][2]]] if func in STRESS else [])
             for i, sig in enumerate(sigs[:2]):
@@ -224,6 +230,17 @@ def params_tag(params):
     return ":params=" + ",".join("%s=%r" % (k, params[k]) for k in sorted(params))
 
 
+def print_options(req_params, func):
+    """(printer keyword arguments, function name override) encoded as pseudo parameters of a request."""
+    kw, name = {}, None
+    if req_params:
+        if "__force_cast__" in req_params:
+            kw["force_cast_arguments"] = req_params["__force_cast__"]
+        if req_params.get("__rename__"):
+            name = func + "_0"  # what results/update.py does: graph.props.update(name=f"{func_name}_{i}")
+    return kw, name
+
+
 def make_context(fa, target, params=None, how="ctor"):
     """Context as results/update.py makes it for `target`, plus optional context parameters.  The pseudo
     parameter "__paths__" = "overrides" lists a user module before fa.algorithms."""
@@ -231,6 +248,8 @@ def make_context(fa, target, params=None, how="ctor"):
     paths = [fa.algorithms]
     if params.pop("__paths__", None) == "overrides":
         paths = [make_overrides(), fa.algorithms]
+    for k in [k for k in params if k.startswith("__")]:
+        params.pop(k)  # print-time options (see print_options), not context parameters
     kw = context_params(target)
     if params and how == "ctor":
         return fa.Context(paths=paths, parameters=dict(params), **kw), False
